@@ -178,4 +178,11 @@ pub fn lossy_from_impls() {
     assert!(i8::lossy_from(FixedI16::<U9>::from_bits(a)) as i32 == (a as i32) >> 9);
     assert!(u16::lossy_from(FixedU16::<U5>::from_bits(u)) == u >> 5);
     assert!(i64::lossy_from(FixedU16::<U5>::from_bits(u)) == (u >> 5) as i64);
+    // sources without integer bits: the floor is -1 or 0
+    assert!(i8::lossy_from(FixedI16::<U16>::from_bits(a)) == if a < 0 { -1 } else { 0 });
+    assert!(i16::lossy_from(FixedI16::<U16>::from_bits(a)) == if a < 0 { -1 } else { 0 });
+    assert!(i128::lossy_from(FixedI8::<U8>::from_bits(a as i8)) == if (a as i8) < 0 { -1 } else { 0 });
+    assert!(u16::lossy_from(FixedU16::<U16>::from_bits(u)) == 0);
+    assert!(i32::lossy_from(FixedU16::<U16>::from_bits(u)) == 0);
+    assert!(FixedI8::<U0>::lossy_from(FixedI8::<U8>::from_bits(a as i8)).to_bits() == if (a as i8) < 0 { -1 } else { 0 });
 }
